@@ -31,6 +31,7 @@ import (
 
 	"github.com/ARM-software/golang-utils/utils/logs"
 	"github.com/ARM-software/golang-utils/utils/subprocess"
+	commandUtils "github.com/ARM-software/golang-utils/utils/subprocess/command"
 	"github.com/ARM-software/golang-utils/utils/subprocess/supervisor"
 
 	"verif/harness/internal/h"
@@ -49,19 +50,22 @@ type node struct {
 
 type scenario struct {
 	Tree    node   `json:"tree"`
-	Start   string `json:"start"`    // execute | start | supervisor
-	Stop    string `json:"stop"`     // ctx | deadline | cancel | stop | restart
-	DelayMs int    `json:"delay_ms"` // stop instant, ms after the subprocess reported running; -1: once the whole tree is spawned (+20ms)
+	Start   string `json:"start"`          // execute | start | supervisor
+	Stop    string `json:"stop"`           // ctx | deadline | cancel | stop | restart
+	DelayMs int    `json:"delay_ms"`       // stop instant, ms after the subprocess reported running; -1: once the whole tree is spawned (+20ms)
+	As      string `json:"as,omitempty"`   // how the library builds the command: "" (Me), sudo, gosu, su, gosu+sudo (stand-ins first on PATH)
+	Wrap    string `json:"wrap,omitempty"` // style of the stand-in wrapper: exec (exec "$@") | fork ("$@" & wait)
 }
 
 type result struct {
-	Returned     bool   `json:"returned"`   // the blocking call came back within the bound (or, without a blocking call, IsOn went false within it)
-	ReturnMs     int64  `json:"return_ms"`  // latency of that return after the stop request
-	Survivors    int    `json:"survivors"`  // in-group processes of the tree alive after the settle time
-	Exempt       int    `json:"exempt"`     // alive processes that left the group (setsid)
-	IsOn         bool   `json:"is_on"`      // IsOn() after the return / after the bound
-	SpawnedAt    int    `json:"spawned_at"` // processes of the tree seen just before the stop request
-	Running      bool   `json:"running"`    // the subprocess was observed running before the stop request
+	Returned     bool   `json:"returned"`             // the blocking call came back within the bound (or, without a blocking call, IsOn went false within it)
+	ReturnMs     int64  `json:"return_ms"`            // latency of that return after the stop request
+	Survivors    int    `json:"survivors"`            // in-group processes of the tree alive after the settle time
+	Exempt       int    `json:"exempt"`               // alive processes that left the group (setsid)
+	IsOn         bool   `json:"is_on"`                // IsOn() after the return / after the bound
+	SpawnedAt    int    `json:"spawned_at"`           // processes of the tree seen just before the stop request
+	NotLeader    bool   `json:"not_leader,omitempty"` // the direct child was seen and does not lead its own process group
+	Running      bool   `json:"running"`              // the subprocess was observed running before the stop request
 	StartErr     string `json:"start_err,omitempty"`
 	Inconclusive string `json:"inconclusive,omitempty"`
 }
@@ -78,6 +82,7 @@ var (
 	mySid   int
 	caseSeq int
 	seqMu   sync.Mutex
+	tmpDir  string
 	probe   = os.Getenv("VERIF_C05_PROBE") != ""
 )
 
@@ -115,6 +120,46 @@ func countNodes(n node) (all, longLived, inGroupLong int) {
 	}
 	rec(n, false)
 	return
+}
+
+// asWrapper returns the library's command translator for a scenario, and how many wrapper processes it puts in front.
+func asWrapper(kind string) (*commandUtils.CommandAsDifferentUser, int) {
+	switch kind {
+	case "sudo":
+		return commandUtils.Sudo(), 1
+	case "gosu":
+		return commandUtils.Gosu("verif"), 1
+	case "su":
+		return commandUtils.Su("verif"), 1
+	case "gosu+sudo":
+		return commandUtils.Gosu("verif").Prepend(commandUtils.Sudo()), 2
+	}
+	return commandUtils.Me(), 0
+}
+
+// eff is the process tree as the operating system sees it: a forking wrapper adds one leader level per wrapper
+// (the wrapper waits for the command it started); an exec'ing wrapper becomes the command.
+func eff(sc scenario) node {
+	t := sc.Tree
+	if _, n := asWrapper(sc.As); n > 0 && sc.Wrap == "fork" {
+		for i := 0; i < n; i++ {
+			t = node{Kids: []node{t}}
+		}
+	}
+	return t
+}
+
+// installWrappers writes the stand-ins sudo / gosu / su into dir and puts dir first on PATH (of this process only).
+func installWrappers(dir string) error {
+	body := func(shift string) string {
+		return "#!/bin/sh\n" + shift + "if [ \"$VERIF_C05_WRAP\" = fork ]; then \"$@\" & wait; else exec \"$@\"; fi\n"
+	}
+	for name, sh := range map[string]string{"sudo": body(""), "gosu": body("shift\n"), "su": body("shift\n")} {
+		if err := os.WriteFile(dir+"/"+name, []byte(sh), 0o755); err != nil {
+			return err
+		}
+	}
+	return os.Setenv("PATH", dir+":"+os.Getenv("PATH"))
 }
 
 // script renders the tree as sh function definitions n0, n1, ... (n0 is the root).
@@ -347,7 +392,9 @@ func execute(sc scenario) (res result) {
 		"VERIF_C05_RUN=" + runID,
 		"VERIF_C05_CASE=" + runID + "-" + tag,
 		"VERIF_C05_SCRIPT=" + script(sc.Tree),
+		"VERIF_C05_WRAP=" + sc.Wrap,
 	}
+	as, _ := asWrapper(sc.As)
 	defer killCase(caseTag)
 
 	parent, cancelParent := context.WithCancel(context.Background())
@@ -366,7 +413,9 @@ func execute(sc scenario) (res result) {
 		defer c()
 	}
 	newP := func(ctx context.Context) (*subprocess.Subprocess, error) {
-		return subprocess.NewWithEnvironment(ctx, quietLoggers{}, env, "", "", "", "sh", "-c", `eval "$VERIF_C05_SCRIPT"; n0`, "c05-"+runID+"-"+tag)
+		q := new(subprocess.Subprocess)
+		e := q.SetupAsWithEnvironment(ctx, quietLoggers{}, env, "", "", "", as, "sh", "-c", `eval "$VERIF_C05_SCRIPT"; n0`, "c05-"+runID+"-"+tag)
+		return q, e
 	}
 	var p *subprocess.Subprocess
 	var pMu sync.Mutex
@@ -432,7 +481,7 @@ func execute(sc scenario) (res result) {
 		}
 		return
 	}
-	_, longLived, _ := countNodes(sc.Tree)
+	_, longLived, _ := countNodes(eff(sc))
 	if sc.Stop == "deadline" {
 		if w := time.Until(deadlineAt) - 4*time.Millisecond; w > 0 {
 			time.Sleep(w)
@@ -456,6 +505,11 @@ func execute(sc scenario) (res result) {
 	}
 	before := procsOf(caseTag, time.Now())
 	res.SpawnedAt = len(before)
+	for _, q := range before {
+		if q.PPid == os.Getpid() && q.Pgrp != q.Pid {
+			res.NotLeader = true // structural: the command must lead its own process group, whatever wrapper it is run through
+		}
+	}
 	oldPids := map[int]bool{}
 	for _, q := range before {
 		oldPids[q.Pid] = true
@@ -546,7 +600,7 @@ func execute(sc scenario) (res result) {
 	}
 	if sc.Stop == "restart" && res.Returned && res.Survivors == 0 {
 		// generation-independent cross-check: once the new tree is up, the group may hold at most one tree
-		_, _, inLong := countNodes(sc.Tree)
+		_, _, inLong := countNodes(eff(sc))
 		time.Sleep(150 * time.Millisecond)
 		in, _ := split(procsOf(caseTag, time.Now()))
 		if len(in) > inLong {
@@ -689,16 +743,19 @@ func verdict(sc scenario, res result) (sig, what string) {
 		return "", ""
 	}
 	mode := sc.Start + ":" + sc.Stop
+	if res.NotLeader {
+		return "child-not-group-leader", "after the start, the direct child does not lead its own process group (getpgid(child) != child pid): no kill of the group can reach the tree (command kind '" + sc.As + "')"
+	}
 	switch {
-	case !res.Returned && res.Survivors == 0 && outsideHolder(sc.Tree):
+	case !res.Returned && res.Survivors == 0 && outsideHolder(eff(sc)):
 		return "no-return:outside-holder", fmt.Sprintf("the whole process group is dead but the call did not return within %v: it waits for a descendant that left the group and holds the output pipes (no WaitDelay)", returnBound)
 	case !res.Returned:
 		return "no-return:" + mode, fmt.Sprintf("the call did not return (IsOn did not go false) within %v of the stop request; %d in-group processes of the tree alive, IsOn=%v", returnBound, res.Survivors, res.IsOn)
 	case res.Survivors > 0:
-		return "survivor:" + mode + ":" + shapeClass(sc.Tree), fmt.Sprintf("%d processes of the tree, still in the child's process group, are alive %v after the stop returned", res.Survivors, settleBound)
+		return "survivor:" + mode + ":" + shapeClass(eff(sc)), fmt.Sprintf("%d processes of the tree, still in the child's process group, are alive %v after the stop returned", res.Survivors, settleBound)
 	case res.IsOn:
 		return "ison-true:" + mode, "IsOn() is true after the stop returned"
-	case res.ReturnMs > slowBound.Milliseconds() && res.Exempt == 0 && !(exits(sc.Tree) && sc.Start != "start"):
+	case res.ReturnMs > slowBound.Milliseconds() && res.Exempt == 0 && !(exits(eff(sc)) && sc.Start != "start"):
 		// nothing outside the group holds the pipes: the return must come from the kill, not from the WaitDelay fallback
 		// (except under Execute when the direct child had exited before the request: Wait is then already past the watcher)
 		return "slow-return:" + mode, fmt.Sprintf("the call returned only %d ms after the stop request (the tree was not killed promptly; typical is 10-50 ms)", res.ReturnMs)
@@ -720,7 +777,7 @@ func coqTree(n node) string {
 func coqCase(sc scenario, res result) string {
 	start := map[string]string{"execute": "SExecute", "start": "SStart", "supervisor": "SSupervisor"}[sc.Start]
 	stop := map[string]string{"ctx": "KCtx", "deadline": "KDeadline", "cancel": "KCancel", "stop": "KStop", "restart": "KRestart"}[sc.Stop]
-	return fmt.Sprintf("(mkCase %s %s %s %s %s %s %s)", coqTree(sc.Tree), start, stop, h.Nat(res.SpawnedAt),
+	return fmt.Sprintf("(mkCase %s %s %s %s %s %s %s)", coqTree(eff(sc)), start, stop, h.Nat(res.SpawnedAt),
 		h.Bool(res.Returned), h.Nat(res.Survivors), h.Bool(res.IsOn))
 }
 
@@ -840,17 +897,17 @@ func outsideHolder(n node) bool {
 
 // admissible: combinations in which the subprocess is running (in the sense of the API) when the stop comes.
 func admissible(sc scenario) bool {
-	exits := exits(sc.Tree)
+	exits := exits(eff(sc))
 	if exits && sc.Start == "supervisor" {
 		return false // the supervisor would legitimately restart the command again and again
 	}
-	if exits && sc.Start == "execute" && !holdsPipeInGroup(sc.Tree) {
+	if exits && sc.Start == "execute" && !holdsPipeInGroup(eff(sc)) {
 		return false // Execute returns by itself: nothing is running when the stop comes
 	}
 	if sc.Start == "supervisor" && (sc.Stop == "stop" || sc.Stop == "restart" || sc.Stop == "cancel") {
 		return false // the supervisor's own API is its context; stopping the inner command makes it restart it, by design
 	}
-	if outsideHolder(sc.Tree) {
+	if outsideHolder(eff(sc)) {
 		return false // known finding (no WaitDelay: Wait outlives the group), replayed first on every run
 	}
 	if sc.Start == "execute" && (sc.Stop == "stop" || sc.Stop == "restart") {
@@ -870,10 +927,17 @@ func main() {
 	runID = fmt.Sprintf("%d.%d", os.Getpid(), time.Now().UnixNano()%1000000007)
 	_, _, mySid, _, _ = readStat(os.Getpid())
 	reapStrays()
+	tmp, terr := os.MkdirTemp("", "verif-c05-*")
+	tmpDir = tmp
+	if terr != nil || installWrappers(tmp) != nil {
+		fmt.Fprintln(os.Stderr, "cannot install the wrapper stand-ins")
+		os.Exit(2)
+	}
+	defer os.RemoveAll(tmp)
 	go scanner()
 	sigc := make(chan os.Signal, 2)
 	signal.Notify(sigc, syscall.SIGINT, syscall.SIGTERM, syscall.SIGHUP)
-	go func() { <-sigc; killRun(); os.Exit(130) }()
+	go func() { <-sigc; killRun(); _ = os.RemoveAll(tmpDir); os.Exit(130) }()
 	defer killRun()
 
 	finish := func() {
@@ -980,6 +1044,20 @@ func main() {
 			}
 		}
 	}
+	// every way the library builds a command (Me, sudo, gosu, su, gosu behind sudo; stand-ins that exec or fork the
+	// command) x every start x stop, on the D17 shape; plus the parent-exits-first shape through sudo
+	for _, as := range []string{"sudo", "gosu", "su", "gosu+sudo"} {
+		for _, w := range []string{"exec", "fork"} {
+			for _, st := range starts {
+				for _, sp := range stops {
+					add(scenario{Tree: d17, Start: st, Stop: sp, DelayMs: -1, As: as, Wrap: w})
+					if as == "sudo" {
+						add(scenario{Tree: exitP, Start: st, Stop: sp, DelayMs: -1, As: as, Wrap: w})
+					}
+				}
+			}
+		}
+	}
 	nCorpus := len(scs)
 	// stop instants swept relative to the spawn, on the D17 shape and the TERM-ignoring one
 	for _, t := range []node{d17, ign, exitP} {
@@ -995,7 +1073,12 @@ func main() {
 	n := r.N(60, 600)
 	delays := []int{-1, -1, -1, 0, 1, 3, 10, 30}
 	for i := 0; i < n*3 && len(scs) < nCorpus+150+n; i++ {
-		add(scenario{Tree: genTree(r, 3), Start: starts[r.Rng.Intn(3)], Stop: stops[r.Rng.Intn(5)], DelayMs: delays[r.Rng.Intn(len(delays))]})
+		sc := scenario{Tree: genTree(r, 3), Start: starts[r.Rng.Intn(3)], Stop: stops[r.Rng.Intn(5)], DelayMs: delays[r.Rng.Intn(len(delays))]}
+		if r.Rng.Intn(3) == 0 {
+			sc.As = []string{"sudo", "gosu", "su", "gosu+sudo"}[r.Rng.Intn(4)]
+			sc.Wrap = []string{"exec", "fork"}[r.Rng.Intn(2)]
+		}
+		add(sc)
 	}
 	if lim := os.Getenv("VERIF_C05_LIMIT"); lim != "" {
 		if k, e := strconv.Atoi(lim); e == nil && k < len(scs) {
@@ -1039,6 +1122,7 @@ func main() {
 		r.Eval()
 		r.Count("start=" + o.sc.Start)
 		r.Count("stop=" + o.sc.Stop)
+		r.Count("command=" + map[bool]string{true: "plain", false: o.sc.As + "/" + o.sc.Wrap}[o.sc.As == ""])
 		all, _, _ := countNodes(o.sc.Tree)
 		r.Count(fmt.Sprintf("tree-size=%d", min(all, 12)/3*3))
 		r.Count(fmt.Sprintf("delay=%d", o.sc.DelayMs))
